@@ -157,6 +157,11 @@ pub struct FuncSpec {
     pub blocks: Vec<Vec<InstrSpec>>,
     pub edges: Vec<EdgeSpec>,
     pub entry: usize,
+    /// (block, position) of instructions removed again after the block was built, in
+    /// order: leaves blocks whose instruction indices differ from their positions, as a
+    /// dead-code pass does
+    #[serde(default)]
+    pub removed: Vec<(usize, usize)>,
 }
 
 impl FuncSpec {
@@ -195,6 +200,13 @@ impl FuncSpec {
             // duplicate (head, tail) pairs are rejected by the graph: ignore, the
             // reference reads the resulting function, not the spec
             let _ = r;
+        }
+        for &(b, pos) in &self.removed {
+            if let Ok(block) = cfg.block_mut(b) {
+                if let Some(index) = block.instructions().get(pos).map(|i| i.index()) {
+                    let _ = block.remove_instruction(index);
+                }
+            }
         }
         if self.entry < self.blocks.len() {
             cfg.set_entry(self.entry).map_err(|e| e.to_string())?;
